@@ -466,8 +466,11 @@ def known_findings(pid):
 # ------------------------------------------------------------------------------------------
 
 def write_evidence(pid, ev):
-    os.makedirs(os.path.join(ROOT, "evidence"), exist_ok=True)
-    p = os.path.join(ROOT, "evidence", pid + ".json")
+    # evidence/ is only for runs against the repository itself; runs against another tree
+    # (VERIF_REPO: seeded changes, scratch worktrees) leave their record under .cache
+    d = os.path.join(ROOT, "evidence") if os.path.realpath(REPO) == "/repo" else os.path.join(CACHE, "evidence-other-tree")
+    os.makedirs(d, exist_ok=True)
+    p = os.path.join(d, pid + ".json")
     with open(p + ".tmp", "w") as f:
         json.dump(ev, f, indent=1, sort_keys=True)
     os.replace(p + ".tmp", p)
@@ -475,7 +478,7 @@ def write_evidence(pid, ev):
 
 
 def write_replay(pid, obj):
-    d = os.path.join(ROOT, "replays")
+    d = os.path.join(ROOT, "replays") if os.path.realpath(REPO) == "/repo" else os.path.join(CACHE, "replays-other-tree")
     os.makedirs(d, exist_ok=True)
     name = "%s-%d-%s.json" % (pid, int(time.time()), sha(json.dumps(obj, sort_keys=True))[:8])
     p = os.path.join(d, name)
